@@ -1261,7 +1261,7 @@ var typedKeyPool = [][2]string{
 	{"Struct[{'a' => Integer}]", "(struct (x61 f (int -9223372036854775808 9223372036854775807)))"},
 	{"Struct[{'a' => Integer, Optional['b'] => String}]", "(struct (x61 f (int -9223372036854775808 9223372036854775807)) (x62 t str))"},
 	{"Variant[Integer, String]", "(var (int -9223372036854775808 9223372036854775807) str)"}, {"Variant[Undef, Integer[0, 9]]", "(var undef (int 0 9))"},
-	{"Optional[Integer]", "(opt (int -9223372036854775808 9223372036854775807))"}, {"Optional[String]", "(opt str)"}, {"NotUndef[String]", "(nu str)"}, {"NotUndef", "(nu any)"},
+	{"Optional[Integer]", "(opt (int -9223372036854775808 9223372036854775807))"}, {"Optional[Integer[0, 9]]", "(opt (int 0 9))"}, {"Optional[String]", "(opt str)"}, {"NotUndef[String]", "(nu str)"}, {"NotUndef", "(nu any)"},
 	{"Collection[1, 3]", "(coll 1 3)"}, {"Collection[0, 2]", "(coll 0 2)"}, {"Collection", "(coll 0 9223372036854775807)"},
 	{"ScalarData", "sdata"}, {"Data", "data"}, {"RichData", "rdata"}, {"Scalar", "scalar"}, {"Numeric", "numeric"}, {"Any", "any"},
 	{"Boolean", "(bool n)"}, {"Boolean[true]", "(bool t)"}, {"Undef", "undef"}, {"Default", "default"}, {"Regexp", "(rx x)"}, {"Regexp[/a/]", "(rx x61)"},
@@ -1418,9 +1418,154 @@ func typedEntries(r *rand.Rand, pool []typedKey, n int, depth int) []sx.Sexp {
 	return xs
 }
 
+// groups of key types that overlap without being comparable (so that the acceptor count ties and rank and name decide), with
+// values most of them accept
+var typedGroups = []struct {
+	keys []string
+	vals []sx.Sexp
+}{
+	{[]string{"Integer[0, 9]", "Integer[5, 20]", "Integer[-5, 5]", "Integer[0]", "Integer[default, 0]", "Integer[1, 1]", "Integer", "Variant[Undef, Integer[0, 9]]",
+		"Optional[Integer]", "Variant[Integer, String]", "Numeric", "Scalar", "ScalarData", "Data", "RichData", "NotUndef", "Any"},
+		[]sx.Sexp{vi(0), vi(1), vi(5), vi(7), vi(9), vi(15), vi(-3), vi(100), vu}},
+	{[]string{"String[1, 5]", "String[2]", "String", "Enum['a', 'b']", "Enum['a']", "Pattern[/a/]", "Pattern[/^a.*$/]", "Variant[Integer, String]", "Optional[String]",
+		"NotUndef[String]", "Scalar", "ScalarData", "Data", "Iterable[Integer]", "Any"},
+		[]sx.Sexp{vs("a"), vs("b"), vs("ab"), vs("abc"), vs("hello!"), vs(""), vs("ba"), vu}},
+	{[]string{"Array[Integer]", "Array[Integer[0, 9]]", "Array[Integer, 1, 3]", "Array[2, 2]", "Array[Scalar]", "Array[Data]", "Array", "Array[String]", "Tuple[Integer]",
+		"Tuple[Integer, String]", "Tuple[String, Integer, 1, 3]", "Collection[1, 3]", "Collection[0, 2]", "Collection", "Iterable[Integer]", "Data", "Array[Array[Integer]]"},
+		[]sx.Sexp{va(), va(vi(1)), va(vi(1), vi(2)), va(vi(5), vi(50)), va(vi(1), vs("a")), va(vs("a"), vi(1)), va(vs("a"), vs("b")), va(vi(1), vi(2), vi(3), vi(4)), va(va(vi(1)), va(vi(2), vi(3)))}},
+	{[]string{"Hash[String, Integer]", "Hash[String, Any]", "Hash[Integer, String]", "Hash[String, Integer, 1, 2]", "Hash[String, Array[Integer]]", "Hash",
+		"Struct[{'a' => Integer}]", "Struct[{'a' => Integer, Optional['b'] => String}]", "Collection[1, 3]", "Collection[0, 2]", "Collection", "Data", "Array[2, 2]", "Array",
+		"Array[Integer, 1, 3]", "Array[Scalar]"},
+		[]sx.Sexp{vh(), vh(vs("a"), vi(1)), vh(vs("a"), vi(1), vs("b"), vi(2)), vh(vs("a"), vi(1), vs("b"), vs("x")), vh(vi(1), vs("x")), vh(vs("a"), va(vi(1), vi(2))),
+			vh(vs("a"), vi(1), vs("b"), vi(2), vs("c"), vi(3)), vh(vi(1), vi(2))}},
+}
+
+func genTypedGroups(g *core.G, pool []typedKey) {
+	r := g.Rng
+	byName := map[string]typedKey{}
+	for _, k := range pool {
+		byName[k.name] = k
+	}
+	n := 600 * g.Scale
+	for i := 0; i < n; i++ {
+		grp := typedGroups[i%len(typedGroups)]
+		nk := 2 + r.Intn(3)
+		ks := []sx.Sexp{}
+		seen := map[string]bool{}
+		for j := 0; j < nk; j++ {
+			name := grp.keys[r.Intn(len(grp.keys))]
+			k, ok := byName[name]
+			if !ok {
+				panic("typedGroups: no such key type " + name)
+			}
+			if seen[name] {
+				continue
+			}
+			seen[name] = true
+			// plain directives that tell the entries apart: a width, a delimiter
+			var d string
+			switch i % len(typedGroups) {
+			case 0:
+				d = []string{"%d", "%x", "%o", "%5d", "%-4x", "%b", "%#x", "%p", "%s", "%03d"}[r.Intn(10)]
+			case 1:
+				d = []string{"%s", "%p", "%c", "%u", "%5s", "%-6p", "%.2s", "%d", "%C", "%t"}[r.Intn(10)]
+			case 2:
+				d = []string{"%a", "%<a", "%(a", "%|a", "%{a", "%s", "%p", "%#a", "%[p", "% a"}[r.Intn(10)]
+			default:
+				// the letter a on a Hash renders its entries as arrays: their inferred type is Array[…, 2, 2]
+				d = []string{"%h", "%<h", "%(h", "%|h", "%a", "%a", "%s", "%p", "%[h", "%<a", "%(a", "%#h"}[r.Intn(12)]
+			}
+			sep := sx.A("-")
+			if r.Intn(4) == 0 {
+				sep = sx.Str(seps[r.Intn(len(seps))])
+			}
+			ks = append(ks, sx.L(sx.L(k.term, sx.Str(k.name)), sx.L(sx.Str(d), sep, sx.A("-"), sx.A("-"))))
+		}
+		v := grp.vals[r.Intn(len(grp.vals))]
+		mode := "tmmap"
+		if r.Intn(3) == 0 {
+			mode = "tmap"
+		}
+		emitFmt(g, sx.T(mode, ks...), v)
+	}
+}
+
+// fixed small universe of the merged order: key sets in which two keys that accept the same value are NOT comparable and have the same
+// number of acceptors once merged with the defaults, so that typeRank decides (one case per rank class: Integer 13 / String 12 / Enum 11 /
+// Pattern 10 / Array 4 / Tuple 3 / Hash 2 / Struct 1 / anything else 0) — every order of the user's entries, several values; and the
+// entries of a Hash formatted with the letter a, whose inferred type Array[…, 2, 2] is looked up in the string_formats of the Array format
+func genTypedFixed(g *core.G, pool []typedKey) {
+	byName := map[string]typedKey{}
+	for _, k := range pool {
+		byName[k.name] = k
+	}
+	key := func(name string) sx.Sexp {
+		k, ok := byName[name]
+		if !ok {
+			panic("genTypedFixed: no such key type " + name)
+		}
+		return sx.L(k.term, sx.Str(k.name))
+	}
+	plain := func(name, d string) sx.Sexp { return sx.L(key(name), sx.L(sx.Str(d), sx.A("-"), sx.A("-"), sx.A("-"))) }
+	cases := []struct {
+		keys []string
+		dirs []string
+		vals []sx.Sexp
+	}{
+		{[]string{"Integer[5, 20]", "Variant[Undef, Integer[0, 9]]", "Optional[Integer[0, 9]]"}, []string{"%d", "%4d", "%08d"}, []sx.Sexp{vi(7), vi(5), vi(15), vi(3), vi(9), vu}},
+		{[]string{"Integer[0, 9]", "Integer[5, 20]", "Integer[-5, 5]"}, []string{"%d", "%4d", "%08d"}, []sx.Sexp{vi(7), vi(5), vi(15), vi(3), vi(-2)}},
+		{[]string{"String[1, 5]", "Pattern[/a/]"}, []string{"%s", "%p"}, []sx.Sexp{vs("a"), vs("ab"), vs("b"), vs("banana")}},
+		{[]string{"Enum['a', 'b']", "Pattern[/a/]"}, []string{"%s", "%p"}, []sx.Sexp{vs("a"), vs("b"), vs("ab")}},
+		{[]string{"Enum['a', 'b']", "String[2]", "Pattern[/^a.*$/]"}, []string{"%s", "%p", "%9s"}, []sx.Sexp{vs("a"), vs("b"), vs("ab"), vs("ba")}},
+		{[]string{"Array[Integer[0, 9]]", "Tuple[Integer]"}, []string{"%<a", "%(a"}, []sx.Sexp{va(vi(5)), va(vi(50)), va(vi(1), vi(2)), va()}},
+		{[]string{"Array[Integer, 1, 3]", "Collection[0, 2]", "Tuple[Integer, String]"}, []string{"%<a", "%(a", "%|a"}, []sx.Sexp{va(vi(5)), va(vi(1), vi(2)), va(vi(1), vs("a")), va(vi(1), vi(2), vi(3))}},
+		{[]string{"Hash[String, Integer, 1, 2]", "Struct[{'a' => Integer, Optional['b'] => String}]"}, []string{"%<h", "%(h"},
+			[]sx.Sexp{vh(vs("a"), vi(1)), vh(vs("a"), vi(1), vs("b"), vs("x")), vh(vs("a"), vi(1), vs("c"), vi(2)), vh()}},
+		{[]string{"Hash[String, Any]", "Collection[1, 3]", "Struct[{'a' => Integer}]"}, []string{"%<h", "%(h", "%|h"}, []sx.Sexp{vh(vs("a"), vi(1)), vh(vs("a"), vs("x")), vh(vs("a"), vi(1), vs("b"), vi(2))}},
+	}
+	perms := [][]int{{0, 1, 2}, {0, 2, 1}, {1, 0, 2}, {1, 2, 0}, {2, 0, 1}, {2, 1, 0}}
+	for _, cs := range cases {
+		for _, pm := range perms {
+			ks := []sx.Sexp{}
+			ok := true
+			for _, i := range pm {
+				if i >= len(cs.keys) {
+					if i == 2 && len(cs.keys) == 2 {
+						continue
+					}
+					ok = false
+					break
+				}
+				ks = append(ks, plain(cs.keys[i], cs.dirs[i]))
+			}
+			if !ok {
+				continue
+			}
+			for _, v := range cs.vals {
+				emitFmt(g, sx.T("tmmap", ks...), v)
+				emitFmt(g, sx.T("tmap", ks...), v)
+			}
+		}
+	}
+	// Hash => %a: the entries are formatted as arrays under the string_formats of the Array format
+	sf := sx.L(plain("Array[2, 2]", "%<a"), plain("Array", "%(a"), plain("Array[Integer, 1, 3]", "%|a"))
+	sf2 := sx.L(plain("Array", "%(a"), plain("Array[2, 2]", "%<a"))
+	for _, inner := range []sx.Sexp{sf, sf2} {
+		arr := sx.L(key("Array"), sx.L(sx.Str("%a"), sx.A("-"), sx.A("-"), inner))
+		for _, hk := range []string{"Hash", "Collection", "Hash[String, Any]"} {
+			for _, v := range []sx.Sexp{vh(vs("a"), vi(1)), vh(vs("a"), vi(1), vs("b"), vi(2)), vh(vi(1), vs("x")), vh(), va(vh(vi(1), vi(2)))} {
+				emitFmt(g, sx.T("tmmap", plain(hk, "%a"), arr), v)
+				emitFmt(g, sx.T("tmap", arr, plain(hk, "%a")), v)
+			}
+		}
+	}
+}
+
 func genTyped(g *core.G) {
 	r := g.Rng
 	pool := typedKeys()
+	genTypedFixed(g, pool)
+	genTypedGroups(g, pool)
 	lg := &lat.Gen{R: r}
 	// values: witnesses of the key types of the map (so that its entries apply), pool values, random lattice values
 	plain := []sx.Sexp{vi(0), vi(5), vi(7), vi(15), vi(-3), vi(100), vs("a"), vs("ab"), vs("hello"), vs(""), vs("abcdefg"), vb(true), vu, vd, vr("a"), vx("ab"),
